@@ -612,7 +612,10 @@ async def process_changing_cause(
     # been reverted in the meantime (the handlers were retrying or sleeping): no cycle will ever
     # finish them or clean them up, and they would leak their retries/timings into the next change.
     # Only the records present on the object are patched away: nothing to purge -- nothing to patch.
-    if cause.reason == causes.Reason.NOOP:
+    # The same goes for an object that is marked for deletion, is not (or no longer) blocked by us,
+    # but is still held by somebody else's finalizer: it can stay there for arbitrarily long,
+    # and no handlers will ever be called for it again.
+    if cause.reason in (causes.Reason.NOOP, causes.Reason.FREE):
         storage = settings.persistence.progress_storage
         owned_handlers = registry._changing.get_resource_handlers(resource=cause.resource)
         state = progression.State.from_storage(body=cause.body, storage=storage, handlers=owned_handlers)
